@@ -14,14 +14,14 @@ import itertools
 import json
 import logging
 
-from .. import common, genrun, graphgen
+from .. import common, genrun, graphgen, shapes
 from ..common import Ctx
 
 LEVEL = "exploration"
 SHARDS = {"quick": 16, "thorough": 16}
 FLOOR = {"quick": 10000, "thorough": 100000}
 REQUIRED_COUNTERS = ["ir_schemas_checked", "ir_graphs", "pkg_models_checked", "pkg_fields_checked", "graphs_with_allof",
-                     "graphs_cyclic", "graphs_acyclic", "orders", "meta_bijections_checked"]
+                     "graphs_cyclic", "graphs_acyclic", "orders", "meta_bijections_checked", "shape_models_checked"]
 RULE = ("all directed multigraphs on 2 named schemas (8 edge kinds per ordered pair incl. self-pairs) x both declaration orders x 3 naming "
         "schemes at IR level, a sample of them (all acyclic ones in thorough) at generated-package level; thorough adds 3 schemas with <=3 "
         "edges x 6 orders and random graphs with 4-6 schemas; case = (graph, order, scheme); non-trivial = graph has >=1 edge")
@@ -208,6 +208,94 @@ def prepare(n, edges, order, scheme):
     return doc, expect, resolved, on_cycle, desc, feats
 
 
+LEAF_KINDS = {"string": {None: "str", "date-time": "datetime", "date": "date", "uuid": "uuid", "byte": "bytes", "time": "time"},
+              "integer": {None: "int"}, "number": {None: "float"}, "boolean": {None: "bool"}}
+
+
+def split_kind(g: str) -> tuple[str, str]:
+    """'list[dict[opt:str]]' -> ('list', 'dict[opt:str]'); 'opt:x' is unwrapped by the caller."""
+    if g.endswith("]") and "[" in g:
+        i = g.index("[")
+        return g[:i], g[i + 1:-1]
+    return g, ""
+
+
+def shape_kind_ok(e: dict, g: str) -> bool:
+    """Does the structural kind `g` read off the generated annotation fit the expectation `e`?  Nullability is not a
+    structural kind (C03 judges nulls); a wrapper model standing in for a map is accepted (its values are C03's)."""
+    if g.startswith("opt:"):
+        g = g[4:]
+    k = e["kind"]
+    if k in LEAF_KINDS:
+        # format: byte is carried as base64 text (str) by this generator; bytes would be as faithful
+        return g == LEAF_KINDS[k].get(e.get("format"), "str") or (e.get("format") == "byte" and g == "str")
+    if k == "enum_inline":
+        # an inline enum is not a reference to a declared enum: its base type is as much as the statement asks for
+        return g.startswith("enum:") or g == ("int" if isinstance(e["values"][0], int) else "str")
+    if k == "ref":
+        if e.get("nullable"):
+            # the 3.0 spelling of a nullable reference is allOf [$ref]: a new anonymous schema composed of the target;
+            # the generator may name it (a model with the target's fields, judged field by field through C03)
+            return g.startswith("ref:") or g.startswith("fwd:")
+        return g in (f"ref:{e['target']}", f"fwd:{e['target']}")
+    if k == "ref_enum":
+        return g == f"enum:{e['target']}"
+    if k == "ref_alias":
+        return g == "datetime"
+    if k == "free_form":
+        return True
+    head, inner = split_kind(g)
+    if k == "array":
+        return head == "list" and shape_kind_ok(e["items"], inner)
+    if k == "map":
+        return (head == "dict" and shape_kind_ok(e["values"], inner)) or g.startswith("ref:")
+    if k == "inline_object":
+        return g.startswith("ref:")
+    return False
+
+
+def check_shapes(ctx: Ctx, chunk: list, n: int) -> None:
+    """Every wrapper(wrapper(leaf)) property shape: one model per shape; the field's annotation must have the structural
+    kind of the shape (list-of / map / reference to the right model / enum / primitive incl. formats)."""
+    rec = ctx.rec
+    d = shapes.document(chunk)
+    root = ctx.scratch.new("shapes")
+    pkg = f"sh{n}"
+    res = genrun.generate(d.doc, root, pkg, None, spec_path=genrun.write_spec(d.doc, root / "spec"))
+    if not res.ok:
+        rec.count("pkg_generation_rejected")
+        return
+    out = genrun.run_probe({"root": str(root), "packages": [{"pkg": pkg, "core": pkg + ".core"}], "actions": ["models"]}, root / "probe")
+    if "probe_error" in out:
+        rec.count("pkg_probe_failed_diagnostic")
+        return
+    mm = out["packages"][pkg]["models"]
+    for i, sh in chunk:
+        name, key = f"S{i}", f"p{i}x"
+        ex = shapes.expr(sh)
+        feats = shapes.features(sh) + ["shapes"]
+        case = {"phase": "shapes", "shape": list(sh), "index": i, "schema": d.doc["components"]["schemas"][name]}
+        rec.case({"shape": ex}, nontrivial=len(sh) > 1)
+        rec.count("shape_models_checked")
+        rec.seen("shapes_checked", ex)
+        entries = [e for e in mm["models"].get(name, []) if e["kind"] == "dataclass"]
+        if len(entries) != 1:
+            rec.violation(f"shape:model_count_{len(entries)}", feats, case, f"{ex}: {name} -> {[e['module'] for e in mm['models'].get(name, [])]}")
+            continue
+        m = entries[0]
+        load = m["load"] or {}
+        if set(load) != {key}:
+            rec.violation("shape:wire_keys_differ", feats, case, f"{ex}: {name} load map {load}")
+            continue
+        f = {x["name"]: x for x in m["fields"]}[load[key]]
+        if not f["has_default"]:
+            rec.violation("shape:requiredness_differs", feats, case, f"{ex}: optional property without a default")
+        e = d.sexp[name]["props"][key]
+        if not shape_kind_ok(e, f["kind"]):
+            rec.violation("shape:structural_kind_differs", feats, case, f"{ex}: annotation kind {f['kind']} ({f['ann']})")
+            rec.seen("shapes_with_wrong_kind", ex)
+
+
 def run_shard(ctx: Ctx) -> None:
     common.use_repo()
     logging.disable(logging.CRITICAL)
@@ -244,6 +332,11 @@ def run_shard(ctx: Ctx) -> None:
                 pkg_batch = []
     if pkg_batch:
         check_pkg(ctx, pkg_batch)
+    cat = list(enumerate(shapes.all_shapes(2 if ctx.quick else 3)))
+    chunks = [cat[i:i + 20] for i in range(0, len(cat), 20)]
+    for ci, chunk in enumerate(chunks):
+        if ctx.mine(ci):
+            check_shapes(ctx, chunk, ctx.shard * 1000 + ci)
 
 
 def replay(ctx: Ctx, file: dict) -> None:
@@ -252,6 +345,9 @@ def replay(ctx: Ctx, file: dict) -> None:
     import pyopenapi_gen.core.loader.loader as ldr
 
     ldr.validate_spec = None
+    if file["case"].get("phase") == "shapes":
+        check_shapes(ctx, [(file["case"]["index"], tuple(file["case"]["shape"]))], 1)
+        return
     d = file["case"]["desc"]
     edges = {}
     for part in filter(None, d["edges"].split(";")):
